@@ -444,6 +444,13 @@ def check_range_cases(ctx, cases, tag):
             ctx.violation("more than RANGE_CACHE_SIZE ranges are rooted by the cache", input=range_program(reqs),
                           expected="<= %d" % size, actual=nrooted, kind="range", reqs=reqs)
         elif got != pat or nrooted != nent:
+            # the code picks the victim by comparing elapsed() values read at different instants: a thread
+            # descheduled between two reads (loaded machine) mis-orders them.  Only a mismatch that persists
+            # over three more solitary runs is reported.
+            again = [yvlib.run_harness(rel, ["c16 dropvm=1 " + hx(range_program(reqs))], case_timeout_ms=20000, shards=1)[0] for _ in range(3)]
+            if any(r.result[0] == "ok" and [int(x) for x in r.output] == pat for r in again):
+                ctx.cov["range_cases_timing_retries"] = ctx.cov.get("range_cases_timing_retries", 0) + 1
+                continue
             ctx.corr_broken.append("impl != M (RangeCache.v): requests %s: identities impl %s model %s; rooted ranges impl %d model %d" % (
                 reqs, got, pat, nrooted, nent))
     return evict
@@ -456,16 +463,13 @@ print(i);
 
 
 def bound_method_cycle(ctx):
-    """known class gc_bound_method_regrey (ObjBoundMethod::blacken re-marks its receiver): the collector hangs"""
+    """former class gc_bound_method_regrey (ObjBoundMethod::blacken re-marked its receiver, fixed): the collector must not hang"""
     rel = ctx.harness("release")
     rec = yvlib.run_harness(rel, ["c16 - " + hx(BOUND_CYCLE)], case_timeout_ms=3000, shards=1)[0]
     if rec.crashed or rec.result[0] != "ok":
-        if any(k.get("class") == "gc_bound_method_regrey" for k in ctx.known_open()):
-            ctx.violation("a cycle through two bound methods hangs the collector: garbage is never reclaimed", input=BOUND_CYCLE,
-                          expected="3000", actual=str(rec.result), known_class="gc_bound_method_regrey")
-        else:
-            ctx.notes.append("bound-method cycle program does not complete (collector re-greys the receiver, class gc_bound_method_regrey, "
-                             "see notes/C16-findings.json); not an open known class of C16 in known_findings.json, so only noted")
+        # fixed in /repo (ee7595b): a recurrence is a violation
+        ctx.violation("a cycle through two bound methods hangs the collector: garbage is never reclaimed", input=BOUND_CYCLE,
+                      expected="3000", actual=str(rec.result), kind="boundcycle")
         return False
     return True
 
@@ -527,6 +531,157 @@ def check_run_logs(ctx, specs, quick):
             ctx.violation("the heap exceeds the bound of pacing_bound (log of `run log=1`)", input=render(sp, n1), actual=val, spec=sp, kind="loop")
     return len(terms)
 
+# ---------------------------------------------------------------------------------------------------------
+# retention chains: every traced field that must be cleared when its owner is done with it
+#
+# Each iteration builds a leftover G from the previous leftover (global `last`) through a temporary owner T
+# (a worker fiber, a call frame, a try/finally, a closed upvalue, a failed import ...); only G is kept.  If some
+# traced field of G (or of something G legitimately references) still points at T after T is done, the chain
+# G_n -> T_n -> G_{n-1} -> ... grows linearly although the program can reach one G only.
+# Traced fields (coq/gen/GcTables.v, marks_gen) and the scenario that would leak if the field were not reset:
+#   ObjFiber.caller         caller_*          (fiber finished / yielded / resumed inside another fiber, nested)
+#   ObjFiber.return_value   fiber_via_finally*, fiber_upv_try_return   (return through finally blocks)
+#   ObjFiber.stack          fiber_locals, fiber_caught*, fiber_looped  (frames' locals, caught values, hidden iterators)
+#                           stack_finished*    (entry function's own arguments / locals of a finished fiber)
+#   ObjFiber.frames         every fiber_* (popped frames' closures)
+#   ObjFiber.open_upvalues  fiber_upv_*       (closed at return / block end / break / return in try / unwinding)
+#   ObjUpvalue.next         upv_next, upv_next_three, upv_next_rev, upv_next_block
+#   ObjUpvalue.owner        upv_owner, upv_owner_yield
+#   ObjUpvalue.closed value covered by the fragments (closure / counter)
+#   ObjHashMap / ObjVec / ObjInstance slots   map_churn, vec_churn, field_overwrite
+#   ObjBoundMethod.receiver bound_dropped
+#   Vm.modules              import_* (a failed import is dropped when the same path is imported again; compile errors
+#                           and missing files register nothing)
+#   Vm.range_cache          range fragments + check_range_cases
+#   iterators' iterable, ObjClosure.module, class_store, intern table, chunks: held for the holder's / Vm's lifetime
+#   by design; Vm.working_class_def, Vm.fiber, main fiber's return_value: single slots, O(1), cannot grow with N.
+CHAIN_PRE = """#[constructor(new)] class A { fn m(self) { return self; } fn get(self) { return self.x; } }
+var last = nil;
+var cleanups = 0;
+fn via_finally(x) { try { return x; } finally { cleanups = cleanups + 1; } }
+fn via_finally2(x) { try { try { return (x, 1); } finally { cleanups = cleanups + 1; } } finally { cleanups = cleanups + 1; } }
+fn via_finally_loop(x) { for q in [1, 2] { try { return [x, q]; } finally { cleanups = cleanups + 1; } } }
+fn locals(x) { var a = [x]; var b = (x, 1); var o = A.new(); o.x = a; o.get(); return 0; }
+fn caught(x) { try { throw [x]; } catch e { var z = (e, 1); } return 0; }
+fn thrower(x) { var l = [x]; throw l; }
+fn caught_deep(x) { try { thrower(x); } catch e { } return 0; }
+fn caught_finally(x) { try { try { thrower(x); } finally { cleanups = cleanups + 1; } } catch e { } return 0; }
+fn looped(x) { for y in [x, x] { var w = [y]; } for y in (x, 1) { if true { break; } } for y in {1: x}.values() { continue; } return 0; }
+fn upv_return(x) { var a = [x]; var c = || a; c(); return 0; }
+fn upv_block(x) { { var a = [x]; var c = || a; c(); } return 0; }
+fn upv_break(x) { while true { var a = [x]; var c = || a; c(); break; } return 0; }
+fn upv_try_return(x) { try { var a = [x]; var c = || a; return c(); } finally { cleanups = cleanups + 1; } }
+fn upv_throw(x) { var a = [x]; var c = || a; throw c; }
+fn upv_caught(x) { try { upv_throw(x); } catch e { } return 0; }
+"""
+FIBER_WORK = ["via_finally", "via_finally2", "via_finally_loop", "locals", "caught", "caught_deep", "caught_finally", "looped",
+              "upv_return", "upv_block", "upv_break", "upv_try_return", "upv_caught"]
+CHAINS = {
+    "caller_finished": "var prev = last; var worker = Fiber.new(|| { var seen = prev; var helper = Fiber.new(|| 1); helper.call(); return helper; }); last = worker.call();",
+    "caller_finished_arg": "var worker = Fiber.new(|p| { var helper = Fiber.new(|q| [q]); helper.call(1); return helper; }); last = worker.call(last);",
+    "caller_yielded": "var worker = Fiber.new(|p| { var helper = Fiber.new(|| { Fiber.yield(1); return 2; }); helper.call(); return helper; }); last = worker.call(last);",
+    "caller_resumed": "var worker = Fiber.new(|p| { var helper = Fiber.new(|| { Fiber.yield(1); return 2; }); helper.call(); return helper; }); last = worker.call(last); last.call();",
+    "caller_twice": "var worker = Fiber.new(|p| { var helper = Fiber.new(|| { Fiber.yield(1); return 2; }); helper.call(); helper.call(); return helper; }); last = worker.call(last);",
+    "caller_nested": "var worker = Fiber.new(|p| { var mid = Fiber.new(|| { var helper = Fiber.new(|| 1); helper.call(); return helper; }); return mid.call(); }); last = worker.call(last);",
+    "caller_mid_kept": "var worker = Fiber.new(|p| { var mid = Fiber.new(|| { var helper = Fiber.new(|| 1); helper.call(); return 0; }); mid.call(); return mid; }); last = worker.call(last);",
+    "caller_in_instance": "var worker = Fiber.new(|p| { var helper = Fiber.new(|| 1); helper.call(); var o = A.new(); o.x = helper; return o; }); last = worker.call(last);",
+    "upv_next_rev": "fn mk(p) { var b = i; var cb = || b; var a = [p]; var ca = || a; ca(); return cb; } last = mk(last);",
+    "upv_next_block": "fn mk(p) { var b = i; var cb = || b; { var a = [p]; var ca = || a; ca(); } return cb; } last = mk(last);",
+    "upv_owner": "var worker = Fiber.new(|p| { var a = [p]; var n = 0; var cb = || n; return cb; }); last = worker.call(last);",
+    "upv_owner_yield": "var worker = Fiber.new(|p| { var a = [p]; { var n = 0; var cb = || n; Fiber.yield(cb); } return 0; }); last = worker.call(last); worker.call();",
+    "map_churn": "if last == nil { last = {}; } last.insert(i, [i]); last.remove(i - 1);",
+    "vec_churn": "if last == nil { last = []; } last.push([i]); last.push([i]); last.pop(); if i % 4 == 3 { while last.len() > 0 { last.pop(); } }",
+    "field_overwrite": "if last == nil { last = A.new(); last.x = nil; } last.x = [i, last.x == nil];",
+    "bound_dropped": "var o = A.new(); o.x = last; var bm = o.get; bm(); last = A.new();",
+    "retval_finally_main": "var h = [last]; via_finally(h); via_finally2(h); last = [i];",
+    "import_throwing": "try { import \"throwing_mod\" as m; } catch e { last = [i]; }",
+    "import_broken": "try { import \"broken_mod\" as m; } catch e { last = [i]; }",
+    "import_missing": "try { import \"missing_mod\" as m; } catch e { last = [i]; }",
+    "import_fine": "import \"fine_mod\" as m; last = [m.f()];",
+}
+for _w in FIBER_WORK:
+    CHAINS["fiber_" + _w] = "var f = Fiber.new(|| { %s(last); return nil; }); f.call(); last = f;" % _w
+    CHAINS["fiber_yield_" + _w] = "var f = Fiber.new(|| { %s(last); Fiber.yield(1); return nil; }); f.call(); last = f;" % _w
+    CHAINS["nested_" + _w] = ("var worker = Fiber.new(|p| { var f = Fiber.new(|| { %s(last); return nil; }); f.call(); return f; }); "
+                              "last = worker.call(0);" % _w)
+# two scenarios that leaked until /repo 233c738 (ObjUpvalue.next of a closed upvalue) and ff9ec03 (stack of a finished
+# fiber): ordinary checks now, a recurrence is a VIOLATION
+CHAINS["stack_finished"] = "var f = Fiber.new(|p| { var a = [p]; return 7; }); f.call(last); last = f;"
+CHAINS["stack_finished_locals"] = "var f = Fiber.new(|p| { var a = [p]; var b = (p, 1); var c = || a; return nil; }); f.call(last); last = f;"
+CHAINS["stack_finished_nested"] = ("var worker = Fiber.new(|p| { var f = Fiber.new(|q| { var a = [q]; return 7; }); f.call(p); return f; }); "
+                                   "last = worker.call(last);")
+CHAINS["upv_next"] = "fn mk(p) { var a = [p]; var ca = || a; var b = i; var cb = || b; ca(); return cb; } last = mk(last);"
+CHAINS["upv_next_three"] = ("fn mk(p) { var a = [p]; var ca = || a; var m = (p, 1); var cm = || m; var b = i; var cb = || b; ca(); cm(); return cb; } "
+                            "last = mk(last);")
+
+
+def chain_program(body, n):
+    return CHAIN_PRE + "var i = 0;\nwhile i < %d {\n    %s\n    i = i + 1;\n}\nprint(i);\n" % (n, body)
+
+
+def chain_unrolled(kind, n):
+    """n DISTINCT failing imports (a loop cannot vary the path): nothing may stay registered"""
+    return "var k = 0;\n" + "".join('try { import "%s_%d" as m; } catch e { k = k + 1; }\n' % (kind, j) for j in range(n)) + "print(k);\n"
+
+
+def gen_chain(rng):
+    """random composition: 1-3 work functions inside a fiber that finishes or yields, at nesting depth 0-3"""
+    works = [rng.choice(FIBER_WORK) for _ in range(rng.randint(1, 3))]
+    inner = "".join("%s(last); " % w for w in works)
+    tail = rng.choice(["return nil;", "Fiber.yield(1); return nil;", "return 7;"])
+    depth = rng.randint(0, 3)
+    if depth == 0:
+        return "var f = Fiber.new(|| { %s%s }); f.call(); last = f;" % (inner, tail)
+    code = "var f = Fiber.new(|| { %s%s }); f.call(); return f;" % (inner, tail)
+    for _ in range(depth - 1):
+        code = "var w = Fiber.new(|| { %s }); return w.call();" % code
+    return "var worker = Fiber.new(|p| { %s }); last = worker.call(0);" % code
+
+
+def check_chains(ctx, quick, extra, only=None):
+    """N/2N retention for the chain scenarios, release and debug; returns (#runs, #scenarios)"""
+    cases = []   # (name, known_class, maker(n))
+    if only:
+        cases.append((only["name"], only.get("class"), (lambda n, b=only["body"], u=only.get("unrolled"): chain_unrolled(u, n) if u else chain_program(b, n))))
+    else:
+        for nm in sorted(CHAINS):
+            cases.append((nm, None, (lambda n, b=CHAINS[nm]: chain_program(b, n))))
+        for kind in ("broken", "missing"):
+            cases.append(("unrolled_import_" + kind, None, (lambda n, k=kind: chain_unrolled(k, n))))
+        for j, body in enumerate(extra):
+            cases.append(("random_%d" % j, None, (lambda n, b=body: chain_program(b, n))))
+    nruns = 0
+    for build, binary, (a, b) in (("release", ctx.harness("release"), (60, 120)), ("debug", ctx.harness("debug"), (12, 24))):
+        lines = []
+        for nm, cls, mk in cases:
+            lines += ["c16 dropvm=1 " + hx(mk(a)), "c16 dropvm=1 " + hx(mk(b))]
+        recs = yvlib.run_harness(binary, lines, case_timeout_ms=30000)
+        nruns += len(lines)
+        for ix, (nm, cls, mk) in enumerate(cases):
+            ra, rb = Run(recs[2 * ix]), Run(recs[2 * ix + 1])
+            extra_kw = {"kind": "chain", "name": nm, "body": None, "class": cls}
+            if nm.startswith("unrolled_import_"):
+                extra_kw["unrolled"] = nm[len("unrolled_import_"):]
+            else:
+                extra_kw["body"] = mk(0).split("while i < 0 {\n    ")[1].split("\n    i = i + 1;")[0]
+            what = detail = None
+            if not (ra.ok and rb.ok):
+                bad = ra if not ra.ok else rb
+                what, detail = "the chain program did not run to completion (%s build)" % build, "%s %s" % (bad.rec.result, bad.rec.messages[:2])
+            else:
+                ka, kb = counted(ra.K), counted(rb.K)
+                if ka != kb:
+                    diff = {k: (ka.get(k, 0), kb.get(k, 0)) for k in set(ka) | set(kb) if ka.get(k, 0) != kb.get(k, 0)}
+                    what = "a leftover pins what built it: objects left behind grow with the iteration count although one leftover is reachable (%s build, %d vs %d iterations, scenario %s)" % (build, a, b, nm)
+                    detail = "kind: (count after N, after 2N) = %s" % short(diff)
+                elif (ra.D and (ra.D[0] or ra.D[2])) or (rb.D and (rb.D[0] or rb.D[2])):
+                    what, detail = "boxes survive dropping the Vm and collecting (%s build, scenario %s)" % (build, nm), "objects, bytes, rooted = %s / %s" % (ra.D, rb.D)
+            if not what:
+                continue
+            if len([v for v in ctx.violations if not v.get("known_class")]) < 5:
+                ctx.violation(what, input=mk(a), expected="equal counts by kind", actual=detail, **extra_kw)
+    return nruns, len(cases)
+
 
 def run(ctx):
     quick = ctx.quick()
@@ -540,6 +695,10 @@ def run(ctx):
             report(ctx, check_programs(ctx, [v["spec"]], quick, "replay"))
         elif v.get("kind") == "repl":
             check_repl(ctx, only=v["snippet"])
+        elif v.get("kind") == "boundcycle":
+            bound_method_cycle(ctx)
+        elif v.get("kind") == "chain":
+            check_chains(ctx, quick, [], only=v)
         ctx.cov.update({"evaluations": 1, "distinct_nontrivial": 0, "rule": "replay of one recorded case", "samples": [v.get("input", "")[:2000]]})
         return
     if (c.get("HEAP_GROWTH_FACTOR"), c.get("HEAP_INIT_BYTES_MAX")) != (STATED_GROWTH, STATED_INIT):
@@ -568,12 +727,15 @@ def run(ctx):
     evict = check_range_cases(ctx, rcases, "cases")
     nrepl = check_repl(ctx)
     nrunlog = check_run_logs(ctx, specs[len(singles):len(singles) + (4 if quick else 16)], quick)
+    rchains = [gen_chain(rng) for _ in range(12 if quick else 80)]
+    nchain_runs, nchains = check_chains(ctx, quick, rchains)
     nontriv = {render(r["spec"], 0) for r in results if r["nontrivial"]}
     trivial = sum(1 for r in results if r.get("trivial"))
     from collections import Counter
     fr = Counter(f for r in results for f in r["spec"]["frags"])
     ctx.cov.update({
-        "evaluations": 4 * len(specs) + len(rcases) + 1 + nrepl + nrunlog,
+        "evaluations": 4 * len(specs) + len(rcases) + 1 + nrepl + nrunlog + nchain_runs,
+        "chain_scenarios": nchains, "chain_runs": nchain_runs,
         "repl_histories": nrepl, "run_log_replays": nrunlog,
         "distinct_nontrivial": len(nontriv),
         "rule": "loop programs = random subsets of %d allocation fragments (vectors, tuples, maps, strings, closures, instances, bound methods, iterators, "
@@ -583,7 +745,7 @@ def run(ctx):
                 "that freed > 0 bytes (measured from the log replayed in Coq)" % len(FRAGS),
         "traces_validated_against_impl": sum(1 for r in results if r.get("verdict")),
         "samples": [render(specs[len(singles)], sizes(quick)["rel"][0]), {"range_requests": rcases[0]},
-                    {"verdicts": [r.get("verdict") for r in results[:3]]}],
+                    {"verdicts": [r.get("verdict") for r in results[:3]]}, {"chain_body": rchains[0]}, {"chain_body": CHAINS["caller_finished"]}],
         "programs": len(specs), "iterations": sizes(quick), "log_records_replayed": sum(r["records"] for r in results),
         "paced_collections_in_logs": sum(r["collections"] for r in results), "bytes_freed_in_logs": sum(r["freed"] for r in results),
         "programs_without_paced_collection_at_2N": trivial,
@@ -605,6 +767,8 @@ def search(ctx):
         report(ctx, results)
         if not ctx.violations:
             check_range_cases(ctx, [gen_range_case(rng) for _ in range(100)], "search")
+        if not ctx.violations:
+            check_chains(ctx, False, [gen_chain(rng) for _ in range(80)])
         shrink_first(ctx, False)
     finally:
         ctx.tier = old
